@@ -1805,3 +1805,51 @@ type SortCall struct {
 	Pos  token.Pos
 	Func string
 }
+
+// SetGlobal presets a package-level variable.
+func (ev *Evaluator) SetGlobal(o *types.Var, v Value) { ev.globals[o] = &Var{Obj: o, V: v} }
+
+// GetGlobal reads a package-level variable (nil if never touched).
+func (ev *Evaluator) GetGlobal(o *types.Var) Value {
+	if v, ok := ev.globals[o]; ok {
+		return v.V
+	}
+	return nil
+}
+
+// RunLitUntil interprets the top-level statements of a function literal until stop
+// reports true; it returns the value of an executed return statement, if any.
+func (ev *Evaluator) RunLitUntil(lit *ast.FuncLit, pkg *packages.Package, args []Value, stop func(ast.Stmt) bool) (ret Value, returned bool, err error) {
+	env := &Env{vars: map[types.Object]*Var{}, pkg: pkg}
+	info := pkg.TypesInfo
+	i := 0
+	for _, f := range lit.Type.Params.List {
+		for _, n := range f.Names {
+			if obj := info.Defs[n]; obj != nil && i < len(args) {
+				env.define(obj, args[i])
+			}
+			i++
+		}
+	}
+	if lit.Type.Results != nil {
+		for _, f := range lit.Type.Results.List {
+			for _, n := range f.Names {
+				if obj := info.Defs[n]; obj != nil {
+					env.define(obj, ev.zero(n.Pos(), obj.Type()))
+				}
+			}
+		}
+	}
+	err = ev.Try(func() {
+		for _, s := range lit.Body.List {
+			if stop(s) {
+				break
+			}
+			if c := ev.stmt(env, s); c.kind == ctrlReturn {
+				ret, returned = c.val, true
+				break
+			}
+		}
+	})
+	return
+}
